@@ -262,7 +262,7 @@ impl<'tcx> Cx<'tcx> {
             s.push(']');
         }
         self.mir_body(body, &mut s);
-        if is_fn {
+        {
             s.push_str(",\"promoted\":[");
             for (i, pb) in tcx.promoted_mir(did).iter().enumerate() {
                 if i > 0 { s.push(','); }
